@@ -310,6 +310,9 @@ def get_logical_instruction_at_offset(
             if python_36:
                 arg = code2num(bytecode, i) | extended_arg
                 extended_arg = (arg << 8) if opname == "EXTENDED_ARG" else 0
+                if opc.version_tuple >= (3, 11) and extended_arg >= 0x80000000:
+                    # Since 3.11 the operand is a signed 32-bit integer: it wraps
+                    extended_arg -= 0x100000000
                 # FIXME: Python 3.6.0a1 is 2, for 3.6.a3 we have 1
                 i += 1
             else:
